@@ -42,3 +42,13 @@ func Panicker(i int) int {
 
 // Allocator allocates a buffer sized by its argument without a bound (LDR-8 control).
 func Allocator(n uint64) []byte { return make([]byte, int(n)) }
+
+// ChildReacher dereferences a child without a nil test, GuardedChildReacher with one (LDR-17 control).
+func ChildReacher(n *node) string { return n.child.name }
+
+func GuardedChildReacher(n *node) string {
+	if n.child == nil {
+		return ""
+	}
+	return n.child.name
+}
